@@ -114,6 +114,8 @@ class Ref:
 
 def ref_step(pool, op, num):
     """apply one op to the reference pool; returns the canonical outcome (and mutates `pool` like the code)."""
+    if op['src'] >= len(pool):
+        return 'missing-source'
     d = pool[op['src']]
     try:
         k = op['op']
@@ -616,8 +618,9 @@ class Observer:
         return out
 
 
-def run_real_history(case):
-    """-> (canonical outcome, findings).  findings: (step, what, expected, got)"""
+def run_real_history(case, watch='all'):
+    """-> (canonical outcome, findings).  findings: (step, what, expected, got).
+    watch='all': every existing dataset is re-observed after every call; 'src': only the call's source."""
     import torch
     import torch_frame
     from torch_frame.data import Dataset
@@ -636,6 +639,10 @@ def run_real_history(case):
         snaps = [ob.obs(d0, -1)]
         steps = []
         for k, op in enumerate(case['ops']):
+            if op['src'] >= len(pool):
+                # only possible when an earlier call deviated from the reference (raised / returned fewer datasets)
+                steps.append('missing-source')
+                continue
             d = pool[op['src']]
             kind = op['op']
             new, out = [], None
@@ -679,6 +686,8 @@ def run_real_history(case):
             steps.append(out)
             # every dataset that existed before the call is unchanged (materialize: only flag and tensor frame)
             for i, old in enumerate(snaps):
+                if watch != 'all' and i != op['src']:
+                    continue
                 now = ob.obs(pool[i], k)
                 if kind == 'materialize' and i == op['src'] and out != 'raises':
                     if (now['df'], now['labels'], now['cols']) != (old['df'], old['labels'], old['cols']):
